@@ -22,14 +22,17 @@ def main():
     core.translate()
     ok, msg = core.build_driver()
     assert ok, msg
+    shutil.rmtree(PROF, ignore_errors=True)
+    os.makedirs(PROF)
+    # instrumented proc-macros write a profile when rustc runs them: keep those out of /repo and /verif
     env = dict(os.environ, CARGO_NET_OFFLINE="true", CARGO_TARGET_DIR=TARGET,
-               RUSTFLAGS="-C instrument-coverage --cfg ctap_types_verif")
+               RUSTFLAGS="-C instrument-coverage --cfg ctap_types_verif", LLVM_PROFILE_FILE="/tmp/cov-build-%p.profraw")
     r = subprocess.run(["cargo", "+nightly", "build", "--offline", "--features", ",".join(FEATS + ["arbitrary"])],
                        cwd=os.path.join(ROOT, "harness"), env=env, capture_output=True, text=True)
     assert r.returncode == 0, r.stderr[-2000:]
     exe = os.path.join(TARGET, "debug", "ctap-harness")
-    shutil.rmtree(PROF, ignore_errors=True)
-    os.makedirs(PROF)
+    for f in glob.glob("/tmp/cov-build-*.profraw"):
+        os.remove(f)
     schema = core.load_schema(FEATS)
     total = 0
     per_prop = {}
